@@ -230,6 +230,7 @@ def build(c):
     for name, k, v in cols:
         d.add_component(v.copy(), name)
         if c.get('jitter') and k == 's':
+            np.random.seed(20260101)        # jitter draws from numpy's global generator: owned by the harness
             d.get_component(d.id[name]).jitter('uniform')
     if c.get('derived'):
         name, k, v = [x for x in cols if x[1] in 'fin'][0]
